@@ -1,7 +1,10 @@
 //! Correspondence harness: calls the real parry code (current /repo working tree) on generated
 //! inputs and prints one line per case: `<prop> <fn> <args…> | <impl output…>`.
 //!   harness gen <prop> <seed> <quick|thorough>     generate cases and run them
+//!   harness list <prop> <seed> <quick|thorough>    print the generated cases without running them
 //!   harness exec                                   stdin: `<prop> <fn> <args…>[ | …]` lines; re-run them
+//!                                                  (HARNESS_FLUSH=1: flush after every case, so that after an abort or a
+//!                                                  hang the first case without an output line is the culprit)
 #![allow(clippy::all)]
 #![allow(dead_code)]
 pub extern crate parry2d_f64 as p2;
@@ -50,7 +53,16 @@ fn main() {
             let o = exec(&prop, &f, &a);
             let _ = writeln!(out, "{} {} {} | {}", prop, f, a, o);
         }
+    } else if args.len() >= 5 && args[1] == "list" {
+        let prop = args[2].clone();
+        let seed: u64 = args[3].parse().unwrap_or(0);
+        let thorough = args[4] == "thorough";
+        let mut rng = Rng::new(seed);
+        for (f, a) in gen(&prop, &mut rng, thorough) {
+            let _ = writeln!(out, "{} {} {}", prop, f, a);
+        }
     } else if args.len() >= 2 && args[1] == "exec" {
+        let flush = std::env::var("HARNESS_FLUSH").is_ok();
         let si = std::io::stdin();
         for line in si.lock().lines() {
             let line = line.unwrap();
@@ -62,6 +74,7 @@ fn main() {
             let a = it.next().unwrap_or("");
             let o = exec(prop, f, a);
             let _ = writeln!(out, "{} {} {} | {}", prop, f, a, o);
+            if flush { let _ = out.flush(); }
         }
     } else {
         eprintln!("usage: harness gen <prop> <seed> <quick|thorough> | harness exec < lines");
